@@ -2,7 +2,7 @@
 
 use crate::gen::*;
 use crate::rec::*;
-use num_bigint::{BigInt, Sign};
+use num_bigint::{BigInt, BigUint, Sign};
 
 fn logic_u(r: &mut Rec, k: u64) {
     match k % 6 {
@@ -263,8 +263,54 @@ pub fn pow64_family(r: &mut Rec) {
     }
 }
 
+/// values m << t whose lowest set bit sits at every position around the digit boundaries (t = 62..65, 126..129, 190..193)
+/// and a few in between: the masks built from `trailing_zeros % 64` meet 0, 1, 62 and 63; bit writes below / at / above
+/// the lowest set bit on both signs, and the bit queries
+pub fn lowbit_family(r: &mut Rec, all: bool) {
+    let ts: Vec<u64> = if all { vec![0, 1, 31, 62, 63, 64, 65, 100, 126, 127, 128, 129, 190, 191, 192, 193] } else { vec![62, 63, 64, 127, 128, 191] };
+    for &t in &ts {
+        for (mi, m) in [1u64, 5, u64::MAX].iter().enumerate() {
+            if !r.case(&format!("lowbit t{} m{}", t, mi)) {
+                continue;
+            }
+            let v = BigUint::from(*m) << t;
+            load_u(r, 0, &v.verif_raw().to_vec());
+            for sign in [Sign::Minus, Sign::Plus] {
+                load_i_from_u(r, 0, sign, 0);
+                let idxs: Vec<u64> = vec![0, 1, t.saturating_sub(2), t.saturating_sub(1), t, t + 1, 63, 64, t + 64, v.bits() - 1, v.bits()];
+                for &ix in &idxs {
+                    for val in [true, false] {
+                        let ex = format!("\"sc\":{},\"v\":{}", sc_list(&[ix.sc()]), val);
+                        r.clone_i(0, 2);
+                        r.i_mut("set_bit", "method", &ex, 2, |d| d.set_bit(ix, val));
+                        if sign == Sign::Plus {
+                            r.clone_u(0, 2);
+                            r.u_mut("set_bit", "method", &ex, 2, |d| d.set_bit(ix, val));
+                        }
+                    }
+                    let ex = format!("\"sc\":{}", sc_list(&[ix.sc()]));
+                    r.q_i("bit", "method", &ex, 0, |a| Ret::none().b(a.bit(ix)));
+                }
+                r.q_i("trailing_zeros", "method", "", 0, |a| {
+                    let tz = a.trailing_zeros();
+                    Ret::none().some(tz.is_some()).n(tz.unwrap_or(0) as i64)
+                });
+                // a right shift that cuts inside / at / after the zero run (floor rounding of negatives)
+                for amt in [t.saturating_sub(1), t, t + 1] {
+                    let ex = ex_sc("I", &[amt.sc()], "rc");
+                    r.op("shr", "ref_u64", &[i(0)], &[i(2)], &ex, |g| {
+                        g.i[2] = &g.i[0] >> amt;
+                        Ret::none()
+                    });
+                }
+            }
+        }
+    }
+}
+
 pub fn run(r: &mut Rec) {
     let mut rng = Rng(r.seed ^ 0xC07);
+    lowbit_family(r, true);
     let pats = [Pat::Pow2, Pat::Pow2m1, Pat::LowZeros, Pat::Ones, Pat::Random, Pat::OneDigit, Pat::Landmark, Pat::Sparse, Pat::MaxM1];
     let maxlen = if r.thorough { 6 } else { 4 };
     for la in 1..=maxlen {
